@@ -20,7 +20,9 @@ def member_src(m, i):
     if k == "num": return "%s = %d" % (n, m["v"])
     if k == "str": return '%s = "%s"' % (n, m["s"])
     if k == "comp": return '%s = "abc".length' % n
-    if k == "ref": return "%s = %s%s" % (n, NAMES[m["m"] - 1], " + 1" if m["add"] else "")
+    if k == "ref":
+        r = NAMES[m["m"] - 1]
+        return "%s = %s" % (n, {"id": r, "plus1": r + " + 1", "neg": "-" + r, "not": "~" + r, "shl": r + " << 1"}[m["op"]])
 
 
 def sval(v):
@@ -30,17 +32,24 @@ def sval(v):
 
 def enum_case(d):
     b1, b2 = d["b1"], d["b2"]
-    src = "enum E { %s }\n" % ", ".join(member_src(m, i) for i, m in enumerate(b1))
+    # decoys: outer constants named like the members - inside the enum body a member name refers to the member
+    refs = sorted(set(NAMES[m["m"] - 1] for m in b1 + b2 if m["k"] == "ref"))
+    src = "".join("const %s = 100;\n" % r for r in refs)
+    src += "enum E { %s }\n" % ", ".join(member_src(m, i) for i, m in enumerate(b1))
     if b2: src += "enum E { %s }\n" % ", ".join(member_src(m, len(b1) + i) for i, m in enumerate(b2))
-    src += 'LOG(Object.keys(E).sort());\nLOG(["A", "B", "C", "D", "E"].map((n) => (E as any)[n]));\nLOG([0, 1, 2, 3, 4, 6, 7, 8].map((v) => (E as any)[v]));\n'
-    obj = {}
-    for p in d["pairs"]: obj[p["key"]] = p["val"]
-    keys = sorted((k[1:] if k.startswith("#") else k) for k in obj)
-    e1 = "L|a[" + ";".join("s:" + ",".join(str(ord(c)) for c in k) for k in keys) + "]"
-    e2 = "L|a[" + ";".join(sval(obj[n]) if n in obj else "U" for n in NAMES) + "]"
-    e3 = "L|a[" + ";".join(sval(obj["#%d" % v]) if ("#%d" % v) in obj else "U" for v in (0, 1, 2, 3, 4, 6, 7, 8)) + "]"
+    src += 'LOG(Object.keys(E).sort());\nLOG(["A", "B", "C", "D", "E"].map((n) => (E as any)[n]));\nLOG([0, 1, 2, 3, 4, 6, 7, 8, 12, -1, -2, -3, -6, -7].map((v) => (E as any)[v]));\n'
+    def expect(pairs):
+        obj = {}
+        for p in pairs: obj[p["key"]] = p["val"]
+        keys = sorted((k[1:] if k.startswith("#") else k) for k in obj)
+        e1 = "L|a[" + ";".join("s:" + ",".join(str(ord(c)) for c in k) for k in keys) + "]"
+        e2 = "L|a[" + ";".join(sval(obj[n]) if n in obj else "U" for n in NAMES) + "]"
+        e3 = "L|a[" + ";".join(sval(obj["#%d" % v]) if ("#%d" % v) in obj else "U" for v in (0, 1, 2, 3, 4, 6, 7, 8, 12, -1, -2, -3, -6, -7)) + "]"
+        return obj, [e1, e2, e3]
+    obj, exp = expect(d["pairs"])
+    _, devexp = expect(d["devpairs"])
     kinds = sorted(set(m["k"] for m in b1 + b2))
-    return src, [e1, e2, e3], {"kind": "enum", "member_kinds": kinds, "blocks": 2 if b2 else 1, "dup_values": len(set(sval(obj[n]) for n in NAMES if n in obj)) < sum(1 for n in NAMES if n in obj)}
+    return src, exp, {"kind": "enum", "member_kinds": kinds, "blocks": 2 if b2 else 1, "devexp": devexp, "dup_values": len(set(sval(obj[n]) for n in NAMES if n in obj)) < sum(1 for n in NAMES if n in obj)}
 
 
 def params_case(d):
@@ -66,6 +75,15 @@ def params_case(d):
 
 
 TWINS = [
+ # the namespace object receives every export AS the body runs: the body (and functions it calls) may go through N.x
+ ("namespace_self_reference", "namespace Config { export const base = 10; export const derived = Config.base * 2; }\nLOG([Config.base, Config.derived]);",
+  "var Config; (function (Config) { Config.base = 10; Config.derived = Config.base * 2; })(Config || (Config = {}));\nLOG([Config.base, Config.derived]);", ["L|a[n:10;n:20]"]),
+ ("namespace_function_through_object", "namespace Reg { export const items: string[] = []; export function add(s: string) { Reg.items.push(s); } add('a'); add('b'); }\nLOG(Reg.items);",
+  "var Reg; (function (Reg) { Reg.items = []; function add(s) { Reg.items.push(s); } Reg.add = add; add('a'); add('b'); })(Reg || (Reg = {}));\nLOG(Reg.items);", ["L|a[s:97;s:98]"]),
+ ("namespace_nested_during_body", "namespace N { export namespace M { export const v = 1; } export const w = N.M.v + 1; export const has = 'M' in N; }\nLOG([N.w, N.has]);",
+  "var N; (function (N) { let M; (function (M) { M.v = 1; })(M = N.M || (N.M = {})); N.w = N.M.v + 1; N.has = 'M' in N; })(N || (N = {}));\nLOG([N.w, N.has]);", ["L|a[n:2;b:true]"]),
+ ("namespace_enum_during_body", "namespace N { export enum E { A = 1, B } export const x = N.E.B; export class C { static k = 5; } export const y = N.C.k; }\nLOG([N.x, N.y]);",
+  "var N; (function (N) { let E; (function (E) { E[E['A'] = 1] = 'A'; E[E['B'] = 2] = 'B'; })(E = N.E || (N.E = {})); N.x = N.E.B; class C { static k = 5; } N.C = C; N.y = N.C.k; })(N || (N = {}));\nLOG([N.x, N.y]);", ["L|a[n:2;n:5]"]),
  ("namespace_exports", "namespace N { export const a = 1; const hidden = 2; export function f() { return a + hidden; } }\nLOG([N.a, N.f(), 'hidden' in N, Object.keys(N).sort()]);",
   "var N; (function (N) { N.a = 1; const hidden = 2; function f() { return N.a + hidden; } N.f = f; })(N || (N = {}));\nLOG([N.a, N.f(), 'hidden' in N, Object.keys(N).sort()]);", ["L|a[n:1;n:3;b:false;a[s:97;s:102]]"]),
  ("namespace_nested", "namespace N { export const a = 1; export namespace M { export const b = a + 1; export namespace K { export const c = b + 1; } } }\nLOG([N.M.b, N.M.K.c, Object.keys(N).sort()]);",
@@ -119,7 +137,10 @@ def main(tier):
         if a == exp: ok += 1; continue
         k = M.first_diff(exp, a)
         feat = dict(feat)
-        if feat["kind"] == "enum":
+        if feat["kind"] == "enum" and a != feat["devexp"]:
+            # not the emit, and not what the three known deviations produce either: a new defect
+            feat = {"kind": "enum", "cause": "unexplained", "member_kinds": feat["member_kinds"], "line": k}
+        elif feat["kind"] == "enum":
             cause = "second_block" if feat["blocks"] == 2 else "nonliteral_initializer" if ("comp" in feat["member_kinds"] or "ref" in feat["member_kinds"]) else "duplicate_values" if feat["dup_values"] else "other"
             feat = {"kind": "enum", "cause": cause, "member_kinds": feat["member_kinds"], "line": k}
         dist[json.dumps(feat, sort_keys=True)] += 1
